@@ -13,7 +13,7 @@ from lbry.wallet.dewies import dewies_to_lbc, lbc_to_dewies, dict_values_to_lbc
 
 from lbry.conf import Config
 from lbry.extras.daemon.storage import SQLiteStorage, calculate_effective_amount
-from lbry.extras.daemon.exchange_rate_manager import ExchangeRateManager
+from lbry.extras.daemon.exchange_rate_manager import ExchangeRateManager, ExchangeRate, MarketFeed
 from lbry.schema.claim import Claim
 from lbry.schema.purchase import Purchase
 from lbry.wallet import Ledger, Database, Headers, Transaction, Input, Output
@@ -272,13 +272,58 @@ def check_effective(run, model, amount, supports, kind):
         run.compare('C20.effective', case, impl, mod)
 
 
+class FakeUSDFeed(MarketFeed):
+    """a market feed with a fixed spot rate: lets the harness put a rate-based conversion into the history of a manager"""
+    name = "fake"
+    market = "USDLBC"
+
+    def __init__(self):
+        super().__init__()
+        import time as _t
+        self.rate = ExchangeRate(self.market, 2.5, int(_t.time()))
+        self.last_check = _t.time()
+
+
+def check_to_dewies_history(run, model, amounts):
+    """history dependence: LBC amounts must convert exactly also AFTER the same process did a rate-based (USD) conversion --
+    nothing a conversion leaves behind (decimal context, caches) may change how a later LBC amount is read. Also the purchase
+    path: a stream fee of n dewies read back as LBC (Fee.amount) and converted."""
+    import decimal
+    from lbry.schema.claim import Stream
+    saved = decimal.getcontext().copy()
+    try:
+        erm = ExchangeRateManager(feeds=[FakeUSDFeed])
+        try:
+            erm.to_dewies('USD', Decimal('1.00'))
+        except Exception:  # noqa  (the USD conversion itself is outside the property)
+            pass
+        for n in amounts:
+            check_to_dewies(run, model, erm, n, 'after-usd-conversion')
+            case = {'op': 'fee_to_dewies', 'n': n, 'history': 'usd'}
+            run.case(case, nontrivial=True, sample=False)
+            run.count('fee_to_dewies')
+            try:
+                stream = Stream()
+                stream.fee.dewies = n
+                got = erm.to_dewies(stream.fee.currency, stream.fee.amount)
+            except ValueError:
+                got = None      # refused (e.g. 1 dewy prints as 1E-8): allowed, never rounded
+            except Exception as e:  # noqa
+                got = f'raised {type(e).__name__}'
+            if got is not None and got != n:
+                run.violation(case, f'after a USD conversion in the same process a stream fee of {n} dewies converts back to '
+                                    f'{got!r}, not exactly {n}', signature={'op': 'fee_to_dewies', 'n': n})
+    finally:
+        decimal.setcontext(saved)
+
+
 def check_to_dewies(run, model, erm, n, kind):
     """ExchangeRateManager.to_dewies('LBC', Decimal amount): the entry point for key fees and purchase prices. An amount
     with at most eight decimals must come out as exactly amount * 10^8, or be refused -- never rounded"""
     amount = Decimal(n).scaleb(-8)
     case = {'op': 'to_dewies', 'n': n, 'amount': str(amount), 'kind': kind}
     run.case(case, nontrivial=True, sample=False)
-    run.count('to_dewies')
+    run.count('to_dewies' if kind != 'after-usd-conversion' else 'to_dewies_after_usd')
     try:
         impl = erm.to_dewies('LBC', amount)
     except ValueError:
@@ -320,6 +365,46 @@ def check_storage(run, model, amounts):
                 run.violation(case, f'amount {n} through save_supports/get_supports: {bad}', signature={'op': 'storage', 'n': n})
             else:
                 run.compare('C20.storage', case, out, model.call('format', n=n))
+    finally:
+        loop.close()
+        shutil.rmtree(d, ignore_errors=True)
+
+
+def check_storage_malformed(run, model, strings):
+    """save_supports on amount strings around the grammar: a string the strict parser refuses must be refused by the storage
+    path too (nothing stored), an accepted one must be stored as exactly the parser's value -- never read some other way"""
+    d = tempfile.mkdtemp(prefix='c20m_')
+    loop = asyncio.new_event_loop()
+    try:
+        conf = Config(data_dir=d, wallet_dir=d, download_dir=d, config=os.path.join(d, 'settings.yml'))
+        storage = SQLiteStorage(conf, os.path.join(d, 'lbrynet.sqlite'), loop=loop)
+        loop.run_until_complete(storage.open())
+        for i, x in enumerate(strings):
+            claim_id = '%040x' % (i + 1)
+            case = {'op': 'storage_malformed', 'amount': x}
+            run.case(case, nontrivial=True, sample=False)
+            run.count('storage_malformed')
+            mod = model.call('parse', s=x.encode('utf-8', 'surrogatepass').hex())
+            try:
+                loop.run_until_complete(storage.save_supports({claim_id: [{'txid': '%064x' % i, 'nout': 0, 'amount': x}]}))
+                refused = False
+            except ValueError:
+                refused = True
+            except Exception as e:  # noqa
+                refused = True
+            back = loop.run_until_complete(storage.get_supports(claim_id))
+            if mod is None:
+                if not refused or back:
+                    run.violation(case, f'save_supports accepted the amount string {x!r}, which is not a plain decimal of the '
+                                        f'grammar (stored as {[b["amount"] for b in back]!r})',
+                                  signature={'op': 'storage_malformed', 'amount': x})
+            else:
+                out = back[0]['amount'] if back else None
+                want = model.call('format', n=int(mod))
+                if refused or out != want:
+                    run.violation(case, f'save_supports/get_supports of the accepted string {x!r}: got {out!r}, exact value is {want!r}',
+                                  signature={'op': 'storage_malformed', 'amount': x})
+        loop.run_until_complete(storage.close())
     finally:
         loop.close()
         shutil.rmtree(d, ignore_errors=True)
@@ -633,6 +718,12 @@ def main(run):
     for n in gen_ints(rng, vlib.scaled(run.tier, 400, 20000)):
         if 0 < n <= SUPPLY:
             check_to_dewies(run, model, erm, n, 'random')
+    check_to_dewies_history(run, model, [n for n in pos if n >= 10 ** 15 or n in (1, 150000000, 99999999, 10 ** 8)] +
+                            [10 ** 17 - 1, 10 ** 17, 10 ** 17 + 1, 123456789012345678, SUPPLY - 1, SUPPLY] +
+                            [n for n in gen_ints(rng, 60) if 10 ** 16 < n <= SUPPLY])
+    check_storage_malformed(run, model, [x for x in FIXED_STRINGS if '\x00' not in x] +
+                            ['83', '150000000', '0', '00000000001', '12345678901', '1', '7.', '.5', '-1.0', '1e3', ' 1.0', '1.0 '] +
+                            [x for x in gen_strings(rng, vlib.scaled(run.tier, 60, 2000)) if '\x00' not in x])
     check_storage(run, model, pos + [n for n in gen_ints(rng, vlib.scaled(run.tier, 300, 5000)) if 0 < n <= SUPPLY])
     mal = [x for x in FIXED_STRINGS if not GRAMMAR.fullmatch(x)][:12] + \
           [x for x in gen_strings(rng, 60) if not GRAMMAR.fullmatch(x)][:vlib.scaled(run.tier, 8, 200)]
@@ -662,6 +753,10 @@ def replay(run, case):
     model = vlib.Model('C20')
     if case.get('op') == 'effective':
         check_effective(run, model, case['amount'], case['supports'], 'replay')
+    elif case.get('op') == 'to_dewies' and case.get('kind') == 'after-usd-conversion' or case.get('op') == 'fee_to_dewies':
+        check_to_dewies_history(run, model, [int(case['n'])])
+    elif case.get('op') == 'storage_malformed':
+        check_storage_malformed(run, model, [case['amount']])
     elif case.get('op') == 'to_dewies':
         check_to_dewies(run, model, ExchangeRateManager(), int(case['n']), 'replay')
     elif case.get('op') == 'storage':
